@@ -45,11 +45,15 @@ RunClause(c) ==
 
 Clause(c) == IF c.k = "v" THEN ValueClause(c) ELSE RunClause(c)
 
-\* the design-layer variables of ValueMap are not used by the judge
-TraceInit == tid \in 1..Len(Cases) /\ cfg = 0 /\ input = 0 /\ output = 0 /\ status = 0
-TraceNext == UNCHANGED <<tid, vars>>
-TraceSpec == TraceInit /\ [][TraceNext]_<<tid, vars>>
+\* the design-layer variables of ValueMap are not used by the judge.
+\* The verdict is computed on the SUCCESSOR state (done = TRUE): TLC generates
+\* initial states in one thread but explores successors with all workers.
+VARIABLE done
+TraceInit == tid \in 1..Len(Cases) /\ done = FALSE /\ cfg = 0 /\ input = 0 /\ output = 0 /\ status = 0
+TraceNext == ~done /\ done' = TRUE /\ UNCHANGED <<tid, vars>>
+TraceSpec == TraceInit /\ [][TraceNext]_<<tid, done, vars>>
 
-Emit == LET cl == Clause(Cases[tid]) IN
+Emit == done =>
+        LET cl == Clause(Cases[tid]) IN
         PrintT(<<"VERDICT", tid, IF cl = "ok" THEN "ok" ELSE "bad", cl, 0>>)
 =============================================================================
